@@ -45,6 +45,16 @@ from .Placeholder import Placeholder
 
 compiled_re = re.compile('( *(@|def))')
 
+def _dedent_block_src( src ):
+  """ Remove the indentation of the first line (the decorator or the def)
+  from every line of the source of a block. Stripping the blanks before
+  every '@' and 'def' instead also hits statements such as 'default = 0'
+  or 'defer( s.x )' and nested functions. """
+  first  = src.split( '\n', 1 )[0]
+  prefix = first[ : len(first) - len(first.lstrip()) ]
+  return '\n'.join( line[ len(prefix): ] if line.startswith( prefix ) else line
+                    for line in src.split( '\n' ) )
+
 def update_ff( blk ):
   NamedObject._elaborate_stack[-1]._update_ff( blk )
   return blk
@@ -114,7 +124,7 @@ class ComponentLevel2( ComponentLevel1 ):
     elif name not in name_info:
       _src, _line = inspect.getsourcelines( func )
       _src = "".join( _src )
-      _ast = ast.parse( compiled_re.sub( r'\2', _src ) )
+      _ast = ast.parse( _dedent_block_src( _src ) )
 
       name_info[ name ] = (False, _src, _line, inspect.getsourcefile( func ), _ast )
       name_rd[ name ]   = _rd   = []
